@@ -28,8 +28,33 @@ class Obj:
         return self is o
 
 
+EXTRA_GLOBALS = {}     # module-level names of the analysed module bound to stand-ins for one abstract run
+
+
 class StandIn:
     """base class of hand-written stand-in objects whose own methods may be called by the interpreted code"""
+
+
+class ExtFn(StandIn):
+    """a function of a third-party module used as a value (e.g. `map(np.prod, ...)`)"""
+
+    def __init__(self, runner, name):
+        self._runner, self._name = runner, name
+
+    def __getattr__(self, attr):
+        if attr.startswith("_"):
+            raise AttributeError(attr)
+        from .pat import CONSTS
+        full = self._name + "." + attr
+        if full in CONSTS:
+            return CONSTS[full]
+        return ExtFn(self._runner, full)
+
+    def __call__(self, *a, **k):
+        impl = self._runner.ext.get(self._name)
+        if impl is None:
+            raise Undecided("external function " + self._name)
+        return impl(*a, **k)
 
 
 class Runner:
@@ -38,9 +63,10 @@ class Runner:
     hook  : hook(runner, ev, call_node, callee_name, recv, args, kwargs) -> value | NotImplemented
     """
 
-    def __init__(self, ctx, enter, hook, asserts=False):
+    def __init__(self, ctx, enter, hook, asserts=False, ext=None):
         self.ctx, self.enter, self.user_hook = ctx, set(enter), hook
         self.asserts = asserts
+        self.ext = ext or {}
         self.trace = []
 
     def call_fn(self, fn, args, kwargs=None):
@@ -64,9 +90,13 @@ class Runner:
                     raise Undecided(f"missing argument {n} of {fn.qname}")
                 env[n] = Ev({}).ev(defaults[di])
         for p, d in zip(a.kwonlyargs, a.kw_defaults):
-            env[p.arg] = kwargs.get(p.arg, Ev({}).ev(d) if d is not None else None)
+            env[p.arg] = kwargs[p.arg] if p.arg in kwargs else (Ev({}).ev(d) if d is not None else None)
         for cname in self.ctx.model.classes:
             env.setdefault(cname, Obj("class:" + cname))
+        for mod in ("np", "math", "pynurbs", "fractions"):
+            env.setdefault(mod, ExtFn(self, mod))
+        for k, v in EXTRA_GLOBALS.items():
+            env.setdefault(k, v)
         ev = Ev(env, hook=lambda e, c, a, k: self._hook(fn, e, c, a, k), attr_hook=self._attr, asserts=self.asserts,
                 store_hook=self._store)
         return ev.run(fn.node.body)
@@ -115,6 +145,8 @@ class Runner:
                 return r
         if isinstance(recv, StandIn) and isinstance(f, ast.Attribute) and hasattr(recv, f.attr):
             return getattr(recv, f.attr)(*args, **kwargs)
+        if isinstance(recv, StandIn) and isinstance(f, ast.Name) and callable(recv):
+            return recv(*args, **kwargs)
         if tgs:
             if len(tgs) > 1:
                 raise Undecided(f"ambiguous callee for {U(call)[:40]}")
